@@ -143,6 +143,21 @@ impl Parser for Variable {
     }
 }
 
+impl Expression {
+    /// True if an operand of this expression is missing.
+    /// The error message for it is stored in the enclosing node.
+    /// Such an expression is not reused,
+    /// so that the missing operand is reported again, when the enclosing node is re-parsed.
+    fn is_incomplete(&self) -> bool {
+        match self {
+            Self::Error(_) => true,
+            Self::Binary(binary) => binary.lhs.is_incomplete() || binary.rhs.is_incomplete(),
+            Self::Unary(unary) => unary.expr.is_incomplete(),
+            _ => false,
+        }
+    }
+}
+
 impl Parser for Expression {
     fn parse<'a>(this: Option<&Self>, input: TokenStream<'a>) -> IResult<'a, Self> {
         fn parse_bracketed(input: TokenStream) -> IResult<Expression> {
@@ -286,6 +301,7 @@ impl Parser for Expression {
         }
 
         // Expr := Comp
+        let this = this.filter(|expr| !expr.is_incomplete());
         affected(this, parse_comparison)(input)
     }
 }
@@ -626,7 +642,7 @@ impl Parser for Argument {
         }
 
         let (input, expr) = match this {
-            Some(Self::Valid(expr)) => affected(
+            Some(Self::Valid(expr)) if !expr.is_incomplete() => affected(
                 Some(expr),
                 alt((|input| parse_valid(Some(expr), input), parse_error)),
             )(input)?,
